@@ -380,3 +380,10 @@ def arg_binding(ctx):
     name while the callee has a parameter of the variable's own name elsewhere (argument inserted / dropped / swapped)."""
     from .common_argsel import arg_binding as run
     run(ctx, ['keys'], 'a value meant as network / index ends up as the hardened flag (or the reverse): another child key is derived')
+
+
+@PROP.obligation('C03.fixed-width')
+def fixed_width_mods(ctx):
+    """Every int.to_bytes of keys.py / encoding.py (child keys, chain codes, fingerprints, indexes) uses a width that does not depend on the value: BIP32 fields are fixed width (32-byte keys, 4-byte indexes)."""
+    from .common_width import fixed_width_modules as run
+    run(ctx, ['keys', 'encoding'], 'a derived key or index with leading zero bytes is serialised shorter: HMAC input and extended-key layout shift, another child key results', 25)
